@@ -154,12 +154,70 @@ def h_readout_angle(c):
 
 def h_readout_lr(c):
     from pyqsp.LPoly import LAlg, w
-    g = LAlg.rotation(dec(c["a"])) * w * LAlg.rotation(dec(c["b"]))
+    a, b = dec(c["a"]), dec(c["b"])
+    kind = c.get("kind", "prod")
+    if kind == "prod":
+        g = LAlg.rotation(a) * w * LAlg.rotation(b)
+    elif kind == "angles":
+        g = LAlg.unitary_from_angles([a, b])
+    elif kind == "a_only":      # b = 0: R(a) w, stored with one-term parts
+        g = LAlg.rotation(a) * w
+    elif kind == "b_only":      # a = 0: w R(b)
+        g = w * LAlg.rotation(b)
+    elif kind == "trunc":
+        g = LAlg.truncate(LAlg.rotation(a) * w * LAlg.rotation(b), -1, 1)
+    else:
+        raise RuntimeError("bad kind")
     return enc(g.left_and_right_angles)
 
 
+def h_palias(c):
+    """aliasing: evaluate an LPoly history over explicit leaf objects, then mutate the result
+    in place (round_zeros with a huge threshold) and report whether any leaf changed"""
+    from pyqsp.LPoly import LPoly
+    leaves = []
+
+    def ev(e):
+        op = e[0]
+        if op == "lit":
+            p = LPoly(dec(e[2]), e[1])
+            leaves.append((p, numpy.array(p.coefs, dtype=float).copy(), int(p.dmin), bool(p.iszero)))
+            return p
+        if op == "add":
+            return ev(e[1]) + ev(e[2])
+        if op == "sub":
+            return ev(e[1]) - ev(e[2])
+        if op == "mul":
+            return ev(e[1]) * ev(e[2])
+        if op == "neg":
+            return -ev(e[1])
+        if op == "inv":
+            return ~ev(e[1])
+        if op == "scale":
+            return ev(e[2]) * dec(e[1])
+        if op == "rscale":
+            return dec(e[1]) * ev(e[2])
+        if op == "trunc":
+            return LPoly.truncate(ev(e[1]), e[2], e[3])
+        if op == "posh":
+            return ev(e[1]).pos_half()
+        if op == "negh":
+            return ev(e[1]).neg_half()
+        raise RuntimeError("bad pexpr " + str(op))
+    r = ev(c["e"])
+    if not r.iszero:
+        r.coefs = numpy.array(r.coefs, dtype=float) if not isinstance(r.coefs, numpy.ndarray) else r.coefs
+        r.round_zeros(1e300)
+    changed = []
+    for k, (p, c0, d0, z0) in enumerate(leaves):
+        now = numpy.array(p.coefs, dtype=float)
+        if now.shape != c0.shape or not numpy.array_equal(now, c0) or int(p.dmin) != d0 or bool(p.iszero) != z0:
+            changed.append(k)
+    return {"changed": changed, "nleaves": len(leaves)}
+
+
 HANDLERS = {"pexpr": h_pexpr, "gexpr": h_gexpr, "constants": h_constants, "from_angles": h_from_angles,
-            "readout_angle": h_readout_angle, "readout_lr": h_readout_lr}
+            "readout_angle": h_readout_angle, "readout_lr": h_readout_lr, "palias": h_palias}
 
 try:
     import impl_handlers2
